@@ -58,7 +58,9 @@ def store_sequence(rng, kind, tmpd, length):
     for _ in range(length):
         k = rng.randrange(1, 4)
         key = "k%d" % k
-        op = rng.choice(["set", "set", "set", "nested", "nested", "get", "get", "get", "del", "has", "keys", "len", "reopen"])
+        op = rng.choice(["set", "set", "set", "nested", "nested", "aliasset", "get", "get", "get", "del", "has", "keys", "len", "reopen"])
+        if op == "aliasset" and (listy or key not in store):
+            op = "set"
         try:
             if op == "set":
                 n = rng.choice([0, 1, 1, 2, 3])
@@ -69,6 +71,16 @@ def store_sequence(rng, kind, tmpd, length):
                     fs = rng.sample([1, 2, 3, 4], n)
                     pairs = [(f, rng.randrange(1, 5)) for f in fs]
                     store[key] = {str(f): x for f, x in pairs}
+                term, res = "OSet %d %s" % (k, dv(pairs)), "ROk"
+            elif op == "aliasset":
+                # read the stored value, change it in place, assign the same object back (what UpdateStateMachine does)
+                f, x = rng.randrange(1, 5), rng.randrange(1, 5)
+                v = store.get(key)
+                v[str(f)] = x
+                steps.append("(OField %d %d %d, ROk)" % (k, f, x))
+                raw.append(["OField %d %d %d (in place, then assigned back)" % (k, f, x), "ROk"])
+                store[key] = v
+                pairs = sorted((int(ff), xx) for ff, xx in dict(v).items())
                 term, res = "OSet %d %s" % (k, dv(pairs)), "ROk"
             elif op == "nested":
                 x = rng.randrange(1, 5)
@@ -125,10 +137,15 @@ def cache_sequence(rng, length, cap):
     fake_redis.new_client(st)
     b = st.RedisDictStore("redis://localhost:6379", "pfx", cache_size=cap)
     steps, raw = [], []
+    # the client's tracking is switched on by its first cached read; the model is of a client whose tracking is on
+    v0 = a.get_cached_view("k9")
+    cache0 = [(int(kk[1:]), intern_val(vv)) for kk, vv in (a.cache or {}).items()]
+    steps.append("(CRead 9, (Some %d), [%s], 0)" % (intern_val(v0), "; ".join("(%d, %d)" % kv for kv in cache0)))
+    raw.append(["read", "k9", "CRead 9", "(Some %d)" % intern_val(v0), cache0, 0])
     for _ in range(length):
         k = rng.randrange(1, 5)
         key = "k%d" % k
-        op = rng.choice(["read", "read", "read", "awrite", "bwrite", "bwrite", "bdel", "deliver", "deliver"])
+        op = rng.choice(["read", "read", "read", "awrite", "bwrite", "bwrite", "bdel", "adel", "has", "has", "deliver", "deliver"])
         obs = "None"
         if op == "read":
             v = a.get_cached_view(key)
@@ -138,9 +155,12 @@ def cache_sequence(rng, length, cap):
             vi = rng.randrange(1, 5)
             (a if op == "awrite" else b)[key] = dict(VALS[vi])
             term = "CWrite %d %d" % (k, vi)
-        elif op == "bdel":
-            del b[key]
+        elif op in ("bdel", "adel"):
+            del (b if op == "bdel" else a)[key]
             term = "CWrite %d 0" % k
+        elif op == "has":
+            obs = "(Some %d)" % (1 if key in a else 0)
+            term = "CHas %d" % k
         else:
             if a.tracker_id is not None:
                 server.deliver(a.tracker_id, 1)
@@ -207,13 +227,14 @@ def main():
     for _ in range(600 if thorough else 120):
         c, d = cache_sequence(rng, rng.randrange(8, 40), rng.choice([1, 2, 3, 8]))
         ccases.append(c); cdescs.append(d)
-    cfuncs = ["c20_cache_ok", "c20_fresh_ok", "c20_capacity_ok"]
-    what = {"c20_fresh_ok": "a cached view returned a value other than the last one written although no invalidation was pending",
+    cfuncs = ["c20_cache_ok", "c20_fresh_ok", "c20_capacity_ok", "c20_member_ok"]
+    what = {"c20_member_ok": "membership (`key in store`) did not agree with what was last written / deleted under that key",
+            "c20_fresh_ok": "a cached view returned a value other than the last one written although no invalidation was pending",
             "c20_capacity_ok": "the cache held more entries than its capacity"}
     r = ck.eval_cases("cache", "PyStr Cases Stores C20Oracle", "c20_cache_case", ccases, cfuncs, per_file=60, timeout=900, prelude=PRE)
     if r is not None:
-        indep = set(r["c20_fresh_ok"]) | set(r["c20_capacity_ok"])
-        for f in ("c20_fresh_ok", "c20_capacity_ok"):
+        indep = set(r["c20_fresh_ok"]) | set(r["c20_capacity_ok"]) | set(r["c20_member_ok"])
+        for f in ("c20_fresh_ok", "c20_capacity_ok", "c20_member_ok"):
             for i in r[f][:3]:
                 ck.violation("%s: %s" % (what[f], json.dumps(cdescs[i]["ops"])[:1500]), {"case": cdescs[i], "monitor": f})
         for i in [i for i in r["c20_cache_ok"] if i not in indep][:3]:
